@@ -13,7 +13,7 @@ def run(tier, rep):
     lines = ['%d bkg %s' % (dB, n) for n in dxlib.bkg_all()]
     # double-beta: cascades with angular correlations (pointer/index code), chains, windows, quadruple beta, gA
     dbd = [(3, 'Mo100 2 1'), (3, 'Ge76 2 1'), (3, 'Nd150 2 1'), (3, 'Mo100 0 1'), (3, 'Bi214 0 1'), (3, 'Pb214 0 1'), (3, 'Po218 0 1'), (3, 'Rn222 0 1'),
-           (3, 'Zr96 0 20'), (3, 'Cd106 0 9'), (3, 'Cd106 0 11'), (3, 'Mo100 0 21'), (2, 'Mo100 0 4 0.5 1.5'), (2, 'Mo100 1 8'), (2, 'Cd106 0 10 0.25 0.75'),
+           (3, 'Zr96 0 20'), (2, 'Xe136 0 20'), (3, 'Cd106 0 9'), (3, 'Cd106 0 11'), (3, 'Mo100 0 21'), (2, 'Mo100 0 4 0.5 1.5'), (2, 'Mo100 1 8'), (2, 'Cd106 0 10 0.25 0.75'),
            (2, 'Se82 0 5'), (2, 'Nd150 0 15'), (2, 'Mo100 0 18'), (2, 'Xe136 0 19'), (2, 'Ca48 0 13')]
     lines += ['%d bkg Co60 0 0 -1 -1 MDL' % dB, '%d bkg Cs137+Ba137m 0 0 -1 -1 MDL' % dB, '3 dbd Mo100 0 1 -1 -1 MDL']
     for dep, c in dbd:
@@ -33,7 +33,7 @@ def run(tier, rep):
     res = vlib.read_jsonl(out)
     if len(res) != len(lines):
         raise SystemExit('HARNESS-ERROR: c07 produced %d records for %d configurations' % (len(res), len(lines)))
-    hist = probes = longs = 0
+    hist = probes = longs = sibs = 0
     nontrivial = 0
     samples = []
     for x in res:
@@ -43,7 +43,7 @@ def run(tier, rep):
         if 'error' in x:
             rep.violation(x['key'] + ':setup', '%s: %s' % (x['key'], x['error']))
             continue
-        hist += x['histories']; probes += x['probes']; longs += x['long_shots']
+        hist += x['histories']; probes += x['probes']; longs += x['long_shots']; sibs += x.get('predecessor_first', 0)
         if x['canon_particles'] >= 2:
             nontrivial += x['histories']
         if len(samples) < 5:
@@ -51,11 +51,12 @@ def run(tier, rep):
         for v in x['violations']:
             rep.violation(v['key'], v['text'])
     rep.coverage.update({
-        'evaluations': hist, 'distinct_nontrivial': nontrivial, 'probe_shots_compared': probes, 'long_history_shots': longs,
+        'evaluations': hist, 'distinct_nontrivial': nontrivial, 'probe_shots_compared': probes, 'long_history_shots': longs, 'predecessor_first_histories': sibs,
         'configurations': len(res), 'exhaustive': True, 'samples': samples,
         'rule': 'for each configuration every sequence up to the stated depth (%d for the %d background names, 2-4 for double-beta configurations) over 11 operations '
                 '(shot into fresh / reused / pre-filled events of exact capacity 1,2,3,4,8; reset+re-initialise; another instance built, shot and destroyed; another '
-                'instance kept alive; the instance destroyed and rebuilt), then 9 probe shots (3 recorded streams into fresh events, one into the reused and each '
+                'instance kept alive; the instance destroyed and rebuilt), plus two predecessor-first histories per configuration in fresh processes (a sibling configuration - same '
+                'mode, other nuclide - initialised and shot before this one is built; kept alive / destroyed), then 9 probe shots (3 recorded streams into fresh events, one into the reused and each '
                 'pre-filled event) compared bit for bit with the canonical history; working parameters compared after re-initialisation; one long history of N shots; '
                 'non-trivial = history on a configuration whose probe events hold >= 2 particles' % (dB, len(dxlib.bkg_all())),
     })
